@@ -45,7 +45,13 @@ mod __verif_kani_etc1 {
     #[kani::proof]
     #[kani::unwind(260)]
     fn check_etc1_tile_8x8() {
-        let data: [u8; 32] = kani::any();
+        // bound: one fully symbolic block at any of the four block positions, the other three zero
+        let blk: [u8; 8] = kani::any();
+        let at: usize = kani::any();
+        kani::assume(at < 4);
+        let mut data = [0u8; 32];
+        let mut i = 0;
+        while i < 8 { data[at * 8 + i] = blk[i]; i += 1; }
         let r = decode(&data, 8, 8, false);
         match r {
             Ok(bmp) => {
@@ -54,6 +60,7 @@ mod __verif_kani_etc1 {
                 kani::assume(x < 8 && y < 8);
                 // block order inside the tile: (0,0) (1,0) / (0,1) (1,1) in x-major-within-row order
                 let bi = (y / 4) * 2 + (x / 4);
+                kani::assume(bi == at);
                 let block = le64(&data[bi * 8..bi * 8 + 8]);
                 if let Some(c) = ref_pixel(block, x % 4, y % 4) {
                     let p = (y * 8 + x) * 4;
@@ -69,7 +76,12 @@ mod __verif_kani_etc1 {
     #[kani::proof]
     #[kani::unwind(260)]
     fn check_etc1a4_tile_8x8() {
-        let data: [u8; 64] = kani::any();
+        let blk: [u8; 16] = kani::any();
+        let at: usize = kani::any();
+        kani::assume(at < 4);
+        let mut data = [0u8; 64];
+        let mut i = 0;
+        while i < 16 { data[at * 16 + i] = blk[i]; i += 1; }
         let r = decode(&data, 8, 8, true);
         match r {
             Ok(bmp) => {
@@ -77,6 +89,7 @@ mod __verif_kani_etc1 {
                 let x: usize = kani::any(); let y: usize = kani::any();
                 kani::assume(x < 8 && y < 8);
                 let bi = (y / 4) * 2 + (x / 4);
+                kani::assume(bi == at);
                 let alphas = le64(&data[bi * 16..bi * 16 + 8]);
                 let block = le64(&data[bi * 16 + 8..bi * 16 + 16]);
                 let k = (x % 4) * 4 + (y % 4);
